@@ -108,12 +108,15 @@ def afterSubdomains (mc : Bool) (f : Bytes → Bool) : Nat → Bytes → Bool
 def schemes : List Bytes :=
   [[104, 116, 116, 112], [104, 116, 116, 112, 115], [119, 115], [119, 115, 115]]  -- http https ws wss
 
+/-- `u` = scheme `sc`, `://`, optional subdomains, and `f` holds for the rest. -/
+def afterScheme (mc : Bool) (f : Bytes → Bool) (u : Bytes) (sc : Bytes) : Bool :=
+  match stripPrefix mc (sc ++ [58, 47, 47]) u with
+  | some r => f r || afterSubdomains mc f 0 r
+  | none => false
+
 /-- `f` holds for some remainder of `u` after "start of address". -/
 def afterStartURL (mc : Bool) (f : Bytes → Bool) (u : Bytes) : Bool :=
-  schemes.any fun sc =>
-    match stripPrefix mc (sc ++ [58, 47, 47]) u with
-    | some r => f r || afterSubdomains mc f 0 r
-    | none => false
+  schemes.any (afterScheme mc f u)
 
 /-- The documented language of a mask pattern. -/
 def maskAccepts (p : MaskPat) (mc : Bool) (u : Bytes) : Bool :=
